@@ -98,7 +98,7 @@ impl Gen {
             3 => Some(cur.saturating_add(self.vol()).max(1)),
             _ => None,
         };
-        let v = if self.profile == "unusual" && self.chance(0.2) { Some(0) } else { v };
+        let v = if (self.profile == "unusual" && self.chance(0.2)) || (self.profile == "py" && self.chance(0.08)) { Some(0) } else { v };
         (p, v)
     }
 
